@@ -258,7 +258,10 @@ func genC20Case(r *Rng) c20Input {
 			add("or_prevote", m, r.Intn(9), 0)
 			add("or_vote", m&(1+r.Intn(7)), 0, 0)
 			add("or_tally", 0, 0, 0)
-		case 7: // votes / prevotes left pending
+		case 7: // votes / prevotes left pending (sometimes with a whitelist edit that is not yet in force)
+			if r.Chance(1, 3) {
+				add("or_params", r.Intn(31), 0, 0)
+			}
 			m := 1 + r.Intn(7)
 			add("or_prevote", m, r.Intn(9), 0)
 			if r.Chance(2, 3) {
